@@ -18,8 +18,9 @@ VALIDATORS = ["affects", "keep-sorted", "keep-unique", "line-pattern", "line-cou
 
 
 class SBlock:
-    def __init__(self, name, attrs, lines, expected, ai_token=None, ai_reply=None):
+    def __init__(self, name, attrs, lines, expected, ai_token=None, ai_reply=None, glued_to_prev=False):
         self.name, self.attrs, self.lines = name, attrs, lines
+        self.glued_to_prev = glued_to_prev      # written into the previous block's comment line (two blocks starting on one line)
         self.expected = expected        # list of (code, severity number)
         self.ai_token, self.ai_reply = ai_token, ai_reply
 
@@ -103,7 +104,16 @@ def gen_block(r, name, scripts, use_ai=True, use_lua=True, max_rules=4, force=No
 def render_file(blocks, opener, eol="\n", filler=None):
     out = []
     line = 1
-    for b in blocks:
+    for bi, b in enumerate(blocks):
+        if b.glued_to_prev:
+            continue
+        if bi + 1 < len(blocks) and blocks[bi + 1].glued_to_prev:
+            # two empty blocks opened and closed on one comment line
+            nb = blocks[bi + 1]
+            b.tag_line = nb.tag_line = line
+            out.append("%s <block %s></block> <block %s></block>%s" % (opener, render_attrs(b.attrs), render_attrs(nb.attrs), eol))
+            line += 1
+            continue
         if filler:
             out.append(filler + eol)
             line += 1
@@ -133,6 +143,7 @@ def add_affects(r, s, p=0.35):
         if not touched:
             continue
         diff.append("diff --git a/%s b/%s\n--- a/%s\n+++ b/%s\n" % (path, path, path, path))
+        touched = [b for b in touched if not b.glued_to_prev]
         for k, b in enumerate(touched):
             n = b.tag_line + 1
             diff.append("@@ -%d,0 +%d,1 @@\n+%s\n" % (n - 1 - k, n, b.lines[0]))
@@ -155,6 +166,11 @@ def gen_scenario(r, scripts, nfiles=None, use_ai=True, use_lua=True, dirs=True, 
         for _ in range(r.randint(min_blocks, max_blocks)):
             blocks.append(gen_block(r, "n%d" % bi, scripts, use_ai, use_lua))
             bi += 1
+            if r.random() < 0.12:
+                # a pair of rule-less blocks that start on the same source line (listing must keep both, in order)
+                blocks.append(SBlock("n%d" % bi, [("name", "n%d" % bi)], [], []))
+                blocks.append(SBlock("n%d" % (bi + 1), [("name", "n%d" % (bi + 1))], [], [], glued_to_prev=True))
+                bi += 2
         s.files[path] = render_file(blocks, opener)
         s.blocks[path] = blocks
         s.order.append(path)
